@@ -63,6 +63,9 @@ def cases(tier, seed):
                     if kind in ("ode", "statio") and li == 0 and si in (0, 2):
                         # vector-valued residual: the squared residual is the squared norm over its components
                         out.append(dict(cfg=dict(cfg, ncomp=2), depth=B["depth"]))
+                        # a system loss with two equations of different landscapes: candidates ranked by the sum over the
+                        # equations of the squared residuals
+                        out.append(dict(cfg=dict(cfg, system=2), depth=B["depth"]))
     out.sort(key=lambda c: (c["cfg"]["dim"] == 1, c["cfg"]["kind"] != "ode"))
     return out
 
